@@ -343,6 +343,63 @@ func (r *Run) Finish() {
 	f.Write(append(b, '\n'))
 }
 
+// markCurrent stores the case about to be executed, so that the driver can turn a
+// process crash (a panic in a goroutine pandora spawned, a runtime fatal error, a
+// race-detector abort) into a replayable failing case.
+func (r *Run) markCurrent(c any) {
+	p := os.Getenv("VERIF_CURRENT")
+	if p == "" {
+		return
+	}
+	b, err := json.Marshal(map[string]any{"property": r.Prop, "test": r.Test, "case": c,
+		"error": "process died while executing this case"})
+	if err != nil {
+		return
+	}
+	_ = os.WriteFile(p, b, 0o644)
+}
+
+// GoErr runs f in a new goroutine, turning a panic into an error delivered to sink.
+func GoErr(wg *sync.WaitGroup, sink *ErrSink, f func()) {
+	if wg != nil {
+		wg.Add(1)
+	}
+	go func() {
+		if wg != nil {
+			defer wg.Done()
+		}
+		defer func() {
+			if p := recover(); p != nil {
+				sink.Set(fmt.Errorf("panic in harness-started goroutine: %v\n%s", p, debug.Stack()))
+			}
+		}()
+		f()
+	}()
+}
+
+// ErrSink keeps the first error reported by concurrent goroutines.
+type ErrSink struct {
+	mu  sync.Mutex
+	err error
+}
+
+func (e *ErrSink) Set(err error) {
+	if err == nil {
+		return
+	}
+	e.mu.Lock()
+	if e.err == nil {
+		e.err = err
+	}
+	e.mu.Unlock()
+}
+
+func (e *ErrSink) Get() error {
+	e.mu.Lock()
+	defer e.mu.Unlock()
+	return e.err
+}
+
 // Guard runs f converting a panic into an error with the stack attached.
 func Guard(f func() error) (err error) {
 	defer func() {
@@ -369,6 +426,7 @@ func Check[C any](r *Run, gen func(*rapid.T) C, prop func(C, *Obs) error) {
 		}
 		for i := 0; i < n; i++ {
 			o := &Obs{}
+			r.markCurrent(c)
 			err := Guard(func() error { return prop(c, o) })
 			r.Record(c, o, err)
 			if err != nil {
@@ -380,6 +438,7 @@ func Check[C any](r *Run, gen func(*rapid.T) C, prop func(C, *Obs) error) {
 	rapid.Check(t, func(rt *rapid.T) {
 		c := gen(rt)
 		o := &Obs{}
+		r.markCurrent(c)
 		err := Guard(func() error { return prop(c, o) })
 		r.Record(c, o, err)
 		if err != nil {
